@@ -48,6 +48,10 @@ type RootAssertionNode struct {
 	// functionContext holds the context of the function during backpropagation. The state includes
 	// map objects that are created at initialization, and configurations that are passed through function analyzer.
 	functionContext FunctionContext
+
+	// isShortCircuitScope is set for the temporary tree in which the assertions of a short-circuiting expression
+	// (`&&`, `||`) are computed before they are merged into the tree of the enclosing block (see AddComputation).
+	isShortCircuitScope bool
 }
 
 // LocationOf returns the location of the given expression.
@@ -614,6 +618,19 @@ func (r *RootAssertionNode) AddComputation(expr ast.Expr) {
 	// assignments and branching can't happen within expressions in Go, the order in
 	// which we recur doesn't matter
 	case *ast.BinaryExpr:
+		if (expr.Op == token.LAND || expr.Op == token.LOR) && !r.isShortCircuitScope {
+			// The nil checks among the operands of a short-circuiting expression (see below) guard the operands that
+			// are evaluated after them, but nothing else: the code that follows the expression is reached whatever
+			// the outcome of each check was. Since the assertion tree already holds the assertions of all that
+			// following code, we compute the outermost short-circuiting expression in a tree of its own, where its
+			// checks can only discharge the assertions generated by its own operands, and then merge the result in.
+			scope := newRootAssertionNode(r.exprNonceMap, r.functionContext)
+			scope.isShortCircuitScope = true
+			scope.AddComputation(expr)
+			r.mergeInto(r, scope)
+			return
+		}
+
 		// Process the binary expression `X op Y` in reverse, i.e., add consumers for Y first and then X
 		r.AddComputation(expr.Y)
 
